@@ -520,7 +520,7 @@ def run(pid, tier, seed, work):
     import concurrent.futures as cf
     results = []
     with cf.ThreadPoolExecutor(max_workers=8) as ex:
-        futs = [ex.submit(run_one, cmd, tag, work, 120 if tier == 'quick' else 1500) for cmd, tag in jobs]
+        futs = [ex.submit(run_one, cmd, tag, work, 240 if tier == 'quick' else 1800) for cmd, tag in jobs]
         for f in futs:
             results.append(f.result())
     fails = [f for r in results for f in r['fails']]
